@@ -69,9 +69,21 @@ def run(ctx):
         r0[5] = ("A", [("E", [("Y", b"k" * sz), ("Y", b"v" * sz)])])
         a[1][4] = ("A", [("E", r0)])
         batches.append(a)
+    # the same record *object* at both ends of a batch (records are shareable values): equal inputs must
+    # encode equally whether or not their parts are the same objects
+    shared = set()
+    for _ in range(6):
+        a = recgen.gen_new_batch(rng)
+        r0 = a[1][4][1][0]
+        mid = list(r0[1]); mid[1] = ("D", r0[1][1][1] + 5_000_000); mid[2] = ("I", r0[1][2][1] + 1)
+        a[1][4] = ("A", [r0, ("E", mid), r0])
+        batches.append(a)
+        shared.add(id(a))
     for a in batches:
         try:
             nb = recgen.build_new_batch(a)
+            if id(a) in shared:
+                nb = dataclasses.replace(nb, records=(nb.records[0], nb.records[1], nb.records[0]))
             if id(a) in fold_objs:
                 nb = dataclasses.replace(nb, records=tuple(
                     dataclasses.replace(r, timestamp=t) for r, t in zip(nb.records, fold_objs[id(a)])))
